@@ -132,12 +132,12 @@ func scenC11(r *Run) {
 				f.serveWebfinger(host, fmt.Sprintf("u%d", n), actorID)
 				src.input = fmt.Sprintf("@u%d@%s", n, host)
 			}
-			src.ref, src.finite = l.Reference(60)
+			src.ref, src.finite = l.Reference(260)
 			src.descr = "actor " + l.Describe()
 		case 1: // a bare collection of notes
 			l := f.DrawLayout(host, func(remote bool) CItem { return f.noteItem(host, nextTime(), remote) })
 			src.input = l.RootURL
-			src.ref, src.finite = l.Reference(60)
+			src.ref, src.finite = l.Reference(260)
 			src.descr = "collection " + l.Describe()
 		case 2: // a source that cannot be resolved
 			src.input = []string{"https://" + host + "/missing", "@nobody@" + host, "https://nonexistent.example/a/u1", "@u1@nonexistent.example"}[t.Draw(4)]
@@ -159,7 +159,7 @@ func scenC11(r *Run) {
 		inputs[i] = s.input
 		descr[i] = s.input + " = " + s.descr
 	}
-	ref := mergeRef(sources, 70)
+	ref := mergeRef(sources, 200)
 	allFinite := true
 	for _, s := range sources {
 		allFinite = allFinite && s.finite
@@ -242,6 +242,9 @@ func scenC11(r *Run) {
 			return
 		}
 		lo, hi := pos+int(off), pos+int(off)+int(n)
+		if !allFinite && hi > len(ref)-60 {
+			break // endless sources: the reference merge was only unrolled this far
+		}
 		if lo > len(ref) {
 			lo = len(ref)
 		}
